@@ -17,6 +17,7 @@ import FontVerif.Lemmas.GraphSort2
 import FontVerif.Lemmas.GraphIso3
 import FontVerif.Lemmas.GraphTopo4
 import FontVerif.Lemmas.GraphEnd
+import FontVerif.Lemmas.GraphPromo3
 set_option linter.unusedVariables false
 namespace FontVerif.C05
 open FontVerif FontVerif.Graph
@@ -451,29 +452,20 @@ example :
 
 /-! ### end to end, at full strength: the bytes are the INPUT graph -/
 
-/-- **End to end.**  If `dump` (= `dump_table` after `make_graph`: `pack_objects`, then `serialize`
-only on success) returns bytes `out` for an input graph `g` whose objects are as `TableData` builds
-them, then — whatever reordering, space assignment, subgraph duplication, id re-mapping, link
-re-pointing and orphan removal the packer went through —
-* a reader that starts at offset 0 with the root and follows every offset (big-endian, with its width,
-  relative to its base `position + adjustment`), guided by the shapes of the *input* objects, sees
-  exactly the unfolding of the *input* graph from its root, to every depth;
-* every object reachable from the root in the input graph is represented: there is a position holding
-  a byte-for-byte copy of it (outside its link fields), every offset stored there fits its width, and
-  a reader starting there sees exactly the unfolding of the input graph from that object.
-Duplication is invisible, nothing reachable is lost, no stored offset exceeds its width. -/
-theorem dump_end_to_end (g : Graph) (fresh : List Nat) (out : List Nat) (hn : 1 < g.nodes.length)
-    (hnd : fresh.Nodup) (hroot : g.root ∉ fresh)
-    (hun : ∀ n ∈ fresh, g.objects.find? n = none ∧ (∀ x, ∀ l ∈ (g.obj x).links, l.target ≠ n) ∧
-      (∀ x, ∀ p ∈ (g.node x).parents, p.1 ≠ n))
+/-- **Serializing any graph that simulates `g` yields bytes that read as `g`.**  If `g'` simulates `g`
+under a renaming `φ` that maps root to root, its order starts with its root and is closed under
+links, and `serialize g'` returns `out`, then a reader guided by the shapes of `g`'s objects sees at
+offset 0 the unfolding of `g` from its root, and every object reachable in `g` is represented
+somewhere in `out` (byte-for-byte copy outside its link fields, every stored offset fits its width,
+and a reader starting there sees the unfolding of `g` from that object). -/
+theorem serialized_simulation_reads_as_input (g g' : Graph) (φ : Nat → Nat) (out : List Nat)
+    (hsim : Simulates g' g φ) (hr : φ g'.root = g.root)
     (hwf : ∀ id o, g.objects.find? id = some o → ObjWF o)
-    (h : dump g fresh = some (some out)) :
+    (hsorted : SortedOut g') (hs : serialize g' = some out) :
     (∀ fuel, readBack out g fuel 0 g.root = unfold g fuel g.root) ∧
     (∀ x, Reach g g.root x → ∃ hd, CopyAt out hd (g.obj x) ∧
       (∀ l ∈ (g.obj x).links, readOffset out hd l ≤ maxValue l.width) ∧
       ∀ fuel, readBack out g fuel hd x = unfold g fuel x) := by
-  obtain ⟨g', fresh', hp, _, hs⟩ := dump_bytes_only_if_gate g fresh out h
-  obtain ⟨φ, hsim, hr⟩ := packObjects_simulates g fresh true g' fresh' ⟨hnd, hroot, hun⟩ hp
   have hshape : ∀ x', (g'.obj x').bytes = (g.obj (φ x')).bytes ∧ fieldsOf (g'.obj x') = fieldsOf (g.obj (φ x')) :=
     fun x' => ⟨(hsim x').1, fields_of_shape _ _ φ (hsim x').2⟩
   have hwf' : ∀ id o, g'.objects.find? id = some o → ObjWF o := by
@@ -482,7 +474,9 @@ theorem dump_end_to_end (g : Graph) (fresh : List Nat) (out : List Nat) (hn : 1 
     exact objWF_shape _ _ (hshape id).1 (hshape id).2 (objWF_obj g hwf _)
   have hsound := (serialize_sound g' out hwf' hs).2
   have hread := readBack_eq_unfold g' out hwf' hs
-  obtain ⟨⟨tail, ht⟩, hreach⟩ := pack_reachable_present g g' fresh fresh' hn hp
+  obtain ⟨⟨tail, ht⟩, hclosed⟩ := hsorted
+  have hreach : ∀ x, Reach g' g'.root x → x ∈ g'.order :=
+    fun x hx => reach_mem g' g'.order g'.root (by rw [ht]; exact List.mem_cons_self) hclosed x hx
   have hview : ∀ x' hd, (x', hd) ∈ placements g' g'.order 0 → ∀ fuel,
       readBack out g fuel hd (φ x') = unfold g fuel (φ x') := by
     intro x' hd hm fuel
@@ -509,6 +503,31 @@ theorem dump_end_to_end (g : Graph) (fresh : List Nat) (out : List Nat) (hn : 1 
       rw [this, ← h2]
       exact hfit
 
+/-- **End to end.**  If `dump` (= `dump_table` after `make_graph`: `pack_objects`, then `serialize`
+only on success) returns bytes `out` for an input graph `g` whose objects are as `TableData` builds
+them, then — whatever reordering, space assignment, subgraph duplication, id re-mapping, link
+re-pointing and orphan removal the packer went through —
+* a reader that starts at offset 0 with the root and follows every offset (big-endian, with its width,
+  relative to its base `position + adjustment`), guided by the shapes of the *input* objects, sees
+  exactly the unfolding of the *input* graph from its root, to every depth;
+* every object reachable from the root in the input graph is represented: there is a position holding
+  a byte-for-byte copy of it (outside its link fields), every offset stored there fits its width, and
+  a reader starting there sees exactly the unfolding of the input graph from that object.
+Duplication is invisible, nothing reachable is lost, no stored offset exceeds its width. -/
+theorem dump_end_to_end (g : Graph) (fresh : List Nat) (out : List Nat) (hn : 1 < g.nodes.length)
+    (hnd : fresh.Nodup) (hroot : g.root ∉ fresh)
+    (hun : ∀ n ∈ fresh, g.objects.find? n = none ∧ (∀ x, ∀ l ∈ (g.obj x).links, l.target ≠ n) ∧
+      (∀ x, ∀ p ∈ (g.node x).parents, p.1 ≠ n))
+    (hwf : ∀ id o, g.objects.find? id = some o → ObjWF o)
+    (h : dump g fresh = some (some out)) :
+    (∀ fuel, readBack out g fuel 0 g.root = unfold g fuel g.root) ∧
+    (∀ x, Reach g g.root x → ∃ hd, CopyAt out hd (g.obj x) ∧
+      (∀ l ∈ (g.obj x).links, readOffset out hd l ≤ maxValue l.width) ∧
+      ∀ fuel, readBack out g fuel hd x = unfold g fuel x) := by
+  obtain ⟨g', fresh', hp, _, hs⟩ := dump_bytes_only_if_gate g fresh out h
+  obtain ⟨φ, hsim, hr⟩ := packObjects_simulates g fresh true g' fresh' ⟨hnd, hroot, hun⟩ hp
+  exact serialized_simulation_reads_as_input g g' φ out hsim hr hwf (packObjects_sortedOut g g' fresh fresh' hn hp) hs
+
 /-- non-vacuity of `dump_end_to_end`: all hypotheses hold for the two-object graph above -/
 example :
     let g := Graph.fromObjects [(0, ⟨2, [0, 0], [⟨0, 2, 1, 0⟩]⟩), (1, ⟨1, [9], []⟩)] 0
@@ -520,6 +539,162 @@ example :
   have : (id, o) = (0, ⟨2, [0, 0], [⟨0, 2, 1, 0⟩]⟩) ∨ (id, o) = (1, ⟨1, [9], []⟩) := by
     simpa [g, Graph.fromObjects] using hm
   rcases this with h | h <;> (simp only [Prod.mk.injEq] at h; obtain ⟨_, rfl⟩ := h; constructor <;> simp)
+
+/-! ### extension promotion (typed layer) -/
+
+/-- **Typed `pack_objects` (with `try_promoting_subtables`) reports success only through the gate**,
+whatever lookups the selection heuristic picks. -/
+theorem packWith_success_passes_gate (sel : TGraph → List Nat → Nat → Option (List Nat)) (tg tg' : TGraph)
+    (fresh fresh' : List Nat) (h : packObjectsWith sel tg fresh = some (true, tg', fresh')) : NoOverflow tg'.g := by
+  unfold packObjectsWith at h
+  simp only [Option.bind_eq_bind, Option.bind_eq_some_iff] at h
+  obtain ⟨⟨ok, g1⟩, hb, h⟩ := h
+  cases ok with
+  | true =>
+    simp only [↓reduceIte, Option.some.injEq, Prod.mk.injEq, true_and] at h
+    obtain ⟨rfl, rfl⟩ := h
+    exact (hasOverflows_false_iff _).mp (basicSort_gate tg.g g1 hb)
+  | false =>
+    simp only [Bool.false_eq_true, ↓reduceIte, Option.bind_eq_some_iff] at h
+    obtain ⟨⟨tg2, fr2⟩, hpro, ⟨ok3, g3, fr3⟩, htail, h⟩ := h
+    simp only [Option.some.injEq, Prod.mk.injEq] at h
+    obtain ⟨rfl, rfl, rfl⟩ := h
+    rcases packTail_gate tg2.g g3 fr2 fr3 htail with h1 | h1
+    · exact (hasOverflows_false_iff _).mp h1
+    · exact findOverflows_nil _ h1
+
+/-- **Extension promotion preserves every lookup as a reader sees it, for ANY selection.**
+`actually_promote_subtables` applied to an arbitrary list `sel` of lookups (the result of
+`select_promotions_hb` or anything else): whenever it returns (no panic), for every GPOS/GSUB lookup
+`id` of the input — promoted or not — the reader's view `lookupView` is unchanged: same table
+(extension type 9 / 7), same bytes after the lookup-type field, and per subtable offset the same
+(position, width, adjustment), the same *effective* lookup type and the same subtable unfolding,
+where a lookup of the extension type is looked through: each of its offsets leads to an 8-byte
+`{format 1, extensionLookupType, Offset32}` object whose type and 32-bit offset are followed.  Objects
+that are not lookups are untouched; the root is unchanged.  Hypotheses: fresh ids distinct and unused;
+typed ids are objects; lookup types fit `u16`; nothing below a lookup's subtable offsets is itself a
+lookup (true of every GPOS/GSUB: lookups are only referenced from the LookupList). -/
+theorem promotion_preserves_lookups (tg tg' : TGraph) (sel fresh fresh' : List Nat)
+    (hnd : fresh.Nodup)
+    (hun : ∀ n ∈ fresh, tg.g.objects.find? n = none ∧ (∀ x, ∀ l ∈ (tg.g.obj x).links, l.target ≠ n) ∧
+      (∀ x, ∀ p ∈ (tg.g.node x).parents, p.1 ≠ n))
+    (htyped : ∀ x, tg.typeOf x ≠ TType.other → tg.g.objects.find? x ≠ none)
+    (hu16 : ∀ x r, (tg.typeOf x).raw? = some r → r < 65536)
+    (hsub : ∀ id, tg.typeOf id ≠ TType.other → ∀ l ∈ (tg.g.obj id).links, ∀ y, Reach tg.g l.target y →
+      tg.typeOf y = TType.other)
+    (h : actuallyPromote tg sel fresh = some (tg', fresh')) :
+    (∀ id fuel, tg.typeOf id ≠ TType.other → lookupView tg' fuel id = lookupView tg fuel id) ∧
+    (∀ x, tg.typeOf x = TType.other → x ∉ fresh → tg'.g.obj x = tg.g.obj x) ∧
+    tg'.g.root = tg.g.root :=
+  let r := promote_preserves_views tg tg' sel fresh fresh' ⟨hnd, hun, htyped⟩ hu16 hsub h
+  ⟨r.1, r.2.1, r.2.2.1⟩
+
+/-- **End to end with promotion, for ANY selection heuristic `sel`.**  If the typed `dump`
+(`basic_sort`, on failure `try_promoting_subtables` with the lookups `sel` picks, then space
+assignment / isolation / duplication as before, `serialize` only on success) returns bytes `out`, then
+there is a graph `tgP` — the input after promotion — such that every lookup of the input has in `tgP`
+the same reader's view through extension indirection, every non-lookup object is unchanged, the root
+is the same, and `out` reads back (offset 0 = root, every offset followed with its width and base)
+as the unfolding of `tgP`; every object reachable in `tgP` is represented and every stored offset
+fits its width. -/
+theorem dumpWith_end_to_end (sel : TGraph → List Nat → Nat → Option (List Nat)) (tg : TGraph)
+    (fresh : List Nat) (out : List Nat) (hn : 1 < tg.g.nodes.length)
+    (hnd : fresh.Nodup) (hroot : tg.g.root ∉ fresh)
+    (hun : ∀ n ∈ fresh, tg.g.objects.find? n = none ∧ (∀ x, ∀ l ∈ (tg.g.obj x).links, l.target ≠ n) ∧
+      (∀ x, ∀ p ∈ (tg.g.node x).parents, p.1 ≠ n))
+    (htyped : ∀ x, tg.typeOf x ≠ TType.other → tg.g.objects.find? x ≠ none)
+    (hu16 : ∀ x r, (tg.typeOf x).raw? = some r → r < 65536)
+    (hsub : ∀ id, tg.typeOf id ≠ TType.other → ∀ l ∈ (tg.g.obj id).links, ∀ y, Reach tg.g l.target y →
+      tg.typeOf y = TType.other)
+    (hwf : ∀ id o, tg.g.objects.find? id = some o → ObjWF o)
+    (h : dumpWith sel tg fresh = some (some out)) :
+    ∃ tgP : TGraph,
+      (∀ id fuel, tg.typeOf id ≠ TType.other → lookupView tgP fuel id = lookupView tg fuel id) ∧
+      (∀ x, tg.typeOf x = TType.other → x ∉ fresh → tgP.g.obj x = tg.g.obj x) ∧
+      tgP.g.root = tg.g.root ∧
+      (∀ fuel, readBack out tgP.g fuel 0 tgP.g.root = unfold tgP.g fuel tgP.g.root) ∧
+      (∀ x, Reach tgP.g tgP.g.root x → ∃ hd, CopyAt out hd (tgP.g.obj x) ∧
+        (∀ l ∈ (tgP.g.obj x).links, readOffset out hd l ≤ maxValue l.width) ∧
+        ∀ fuel, readBack out tgP.g fuel hd x = unfold tgP.g fuel x) := by
+  unfold dumpWith at h
+  split at h
+  · simp at h
+  · simp at h
+  · rename_i tgF frF hp
+    split at h
+    · simp at h
+    · rename_i out' hs
+      simp only [Option.some.injEq] at h
+      subst h
+      unfold packObjectsWith at hp
+      simp only [Option.bind_eq_bind, Option.bind_eq_some_iff] at hp
+      obtain ⟨⟨ok, g1⟩, hb, hp⟩ := hp
+      obtain ⟨ho1, hr1⟩ := basicSort_objects tg.g g1 ok hb
+      have hwf1 : ∀ id o, g1.objects.find? id = some o → ObjWF o := by rw [ho1]; exact hwf
+      have hview1 : ∀ fuel id, lookupView ({ tg with g := g1 } : TGraph) fuel id = lookupView tg fuel id :=
+        fun fuel id => lookupView_congr ({ tg with g := g1 } : TGraph) tg ho1 rfl fuel id
+      cases ok with
+      | true =>
+        simp only [↓reduceIte, Option.some.injEq, Prod.mk.injEq, true_and] at hp
+        obtain ⟨rfl, rfl⟩ := hp
+        have hsim : Simulates g1 g1 id := fun x => ⟨rfl, rfl⟩
+        obtain ⟨e1, e2⟩ := serialized_simulation_reads_as_input g1 g1 id out' hsim rfl hwf1
+          (basicSort_sortedOut tg.g g1 true hn hb) hs
+        exact ⟨{ tg with g := g1 }, fun id fuel _ => hview1 fuel id,
+          fun x _ _ => obj_congr tg.g g1 ho1 x, hr1, e1, e2⟩
+      | false =>
+        simp only [Bool.false_eq_true, ↓reduceIte, Option.bind_eq_some_iff] at hp
+        obtain ⟨⟨tg2, fr2⟩, hpro, ⟨ok3, g3, fr3⟩, htail, hp⟩ := hp
+        simp only [Option.some.injEq, Prod.mk.injEq] at hp
+        obtain ⟨rfl, rfl, rfl⟩ := hp
+        -- the graph after sorting satisfies the hypotheses of the promotion theorem
+        have hun1 : ∀ n ∈ fresh, Unused g1 n := fun n hn' => basicSort_unused tg.g g1 false hb n (hun n hn')
+        have hh1 : PromoHyp ({ tg with g := g1 } : TGraph) fresh :=
+          ⟨hnd, hun1, fun x hx => by show g1.objects.find? x ≠ none; rw [ho1]; exact htyped x hx⟩
+        have hsub1 : ∀ id, ({ tg with g := g1 } : TGraph).typeOf id ≠ TType.other →
+            ∀ l ∈ (({ tg with g := g1 } : TGraph).g.obj id).links, ∀ y,
+              Reach ({ tg with g := g1 } : TGraph).g l.target y → ({ tg with g := g1 } : TGraph).typeOf y = TType.other := by
+          intro id hty l hl y hy
+          have hl' : l ∈ (tg.g.obj id).links := by rw [← obj_congr tg.g g1 ho1 id]; exact hl
+          exact hsub id hty l hl' y (reach_congr tg.g g1 ho1 _ _ hy)
+        -- promotion (or nothing promotable)
+        have key : (∀ id fuel, tg.typeOf id ≠ TType.other → lookupView tg2 fuel id = lookupView tg fuel id) ∧
+            (∀ x, tg.typeOf x = TType.other → x ∉ fresh → tg2.g.obj x = tg.g.obj x) ∧
+            tg2.g.root = tg.g.root ∧ FreshFor tg2.g fr2 ∧
+            (∀ id o, tg2.g.objects.find? id = some o → ObjWF o) := by
+          unfold tryPromotingWith at hpro
+          split at hpro
+          · simp at hpro
+          · simp only [Option.some.injEq, Prod.mk.injEq] at hpro
+            obtain ⟨rfl, rfl⟩ := hpro
+            exact ⟨fun id fuel _ => hview1 fuel id, fun x _ _ => obj_congr tg.g g1 ho1 x, hr1,
+              ⟨hnd, by show g1.root ∉ fresh; rw [hr1]; exact hroot, hun1⟩, hwf1⟩
+          · rename_i can parent hget
+            split at hpro
+            · simp at hpro
+            · rename_i toPromote hsel
+              obtain ⟨v1, v2, v3, _⟩ := promote_preserves_views _ tg2 toPromote fresh fr2 hh1 hu16 hsub1 hpro
+              refine ⟨fun id fuel hty => (v1 id fuel hty).trans (hview1 fuel id),
+                fun x hx hxf => (v2 x hx hxf).trans (obj_congr tg.g g1 ho1 x), v3.trans hr1, ?_, ?_⟩
+              · exact promote_freshFor _ tg2 toPromote fresh fr2 hh1 (by show g1.root ∉ fresh; rw [hr1]; exact hroot) hpro
+              · exact promote_wf _ tg2 toPromote fresh fr2 hh1 hwf1 hpro
+        obtain ⟨k1, k2, k3, k4, k5⟩ := key
+        obtain ⟨φ, hinv, hφ, _⟩ := pinv_packTail tg2.g tg2.g fr2 true g3 fr3 (pinv_init tg2.g fr2 k4) htail
+        obtain ⟨e1, e2⟩ := serialized_simulation_reads_as_input tg2.g g3 φ out' hinv.sim hφ k5
+          (packTail_sortedOut tg2.g g3 fr2 fr3 htail) hs
+        exact ⟨tg2, k1, k2, k3, e1, e2⟩
+
+/-- non-vacuity: GPOS-shaped graph 0 → LookupList 1 → lookup 2 (GPOS type 5, three subtables 3,4,5 with
+40 000-byte coverage tables 6,7,8).  `basic_sort` overflows; the lookup is promoted (extension objects
+9,10,11 from the supply, lookup type 5 → 9) and the typed `pack_objects` succeeds. -/
+example :
+    (packObjectsT ⟨Graph.fromObjects [(0, ⟨10, [], [⟨8, 2, 1, 0⟩]⟩), (1, ⟨4, [], [⟨0, 2, 2, 0⟩]⟩),
+      (2, ⟨12, [], [⟨6, 2, 3, 0⟩, ⟨8, 2, 4, 0⟩, ⟨10, 2, 5, 0⟩]⟩),
+      (3, ⟨10, [], [⟨0, 2, 6, 0⟩]⟩), (4, ⟨10, [], [⟨0, 2, 7, 0⟩]⟩), (5, ⟨10, [], [⟨0, 2, 8, 0⟩]⟩),
+      (6, ⟨40000, [], []⟩), (7, ⟨40000, [], []⟩), (8, ⟨40000, [], []⟩)] 0, [(2, TType.gpos 5)]⟩
+      [9, 10, 11, 12]).map (fun r => (r.1, decide (r.2.1.typeOf 2 = TType.gpos 9), (r.2.1.g.obj 2).links.map (·.target),
+      decide (extView (r.2.1.g.obj 9) = some (5, 3)), r.2.2)) = some (true, true, [9, 10, 11], true, [12]) := by
+  decide
 
 /-! ### the gate ignores `adjustment`: conservative, never unsound -/
 
